@@ -71,9 +71,10 @@ pub struct Ext {
     link_prop_max_round: HashMap<(usize, usize), Round>,
     // C05
     pub children: HashMap<Digest, Vec<Digest>>,
-    qc_shown: Vec<HashSet<Digest>>,
+    /// Digest of a block certified by a valid QC shown to the node -> seq of the first showing.
+    qc_shown: Vec<HashMap<Digest, u64>>,
     authored: Vec<HashSet<Digest>>,
-    unjustified: Vec<Vec<(Digest, Round)>>,
+    unjustified: Vec<Vec<(Digest, Round, u64)>>,
     // C10
     evidence: Vec<Round>,
     vote_tally: Vec<HashMap<(Round, Digest), Tally>>,
@@ -120,7 +121,7 @@ impl Ext {
             proposal_first_emission: (0..n).map(|_| HashMap::new()).collect(),
             link_prop_max_round: HashMap::new(),
             children: HashMap::new(),
-            qc_shown: (0..n).map(|_| HashSet::new()).collect(),
+            qc_shown: (0..n).map(|_| HashMap::new()).collect(),
             authored: (0..n).map(|_| HashSet::new()).collect(),
             unjustified: (0..n).map(|_| Vec::new()).collect(),
             evidence: vec![0; n],
@@ -186,7 +187,8 @@ fn note_qc_shown(o: &mut Observer, i: usize, qc: &QC) {
         return;
     }
     if qc_valid(o, qc) {
-        o.ext.qc_shown[i].insert(qc.hash.clone());
+        let seq = o.last_seq;
+        o.ext.qc_shown[i].entry(qc.hash.clone()).or_insert(seq);
         if o.ext.evidence[i] < qc.round {
             o.ext.evidence[i] = qc.round;
         }
@@ -369,7 +371,8 @@ fn consensus_delivered(o: &mut Observer, ev: &TapEvent, m: &ConsensusMessage) {
                     }
                     let has_own = t.authors.contains(&i);
                     if t.stake + if has_own { 0 } else { own } >= q {
-                        o.ext.qc_shown[i].insert(v.hash.clone());
+                        let seq = o.last_seq;
+                        o.ext.qc_shown[i].entry(v.hash.clone()).or_insert(seq);
                         if o.ext.evidence[i] < v.round {
                             o.ext.evidence[i] = v.round;
                         }
@@ -822,7 +825,43 @@ pub fn on_conn_event(o: &mut Observer, ev: &TapEvent, kind: &TapKind) {
     let _ = ev;
 }
 
-pub fn on_commit(o: &mut Observer, node: usize, b: &Block, d: &Digest, _seq: u64) {
+/// C05: is the delivery of block `d` by `node` at sequence number `upto` justified? `d` itself
+/// (direct) or a descendant D must have a child K with K.round == D.round + 1 that a valid QC
+/// certified in a message shown to the node no later than `upto`.
+fn commit_justified(o: &Observer, node: usize, d: &Digest, upto: u64) -> (bool, bool) {
+    let mut direct = false;
+    let mut found = false;
+    let mut frontier: Vec<Digest> = vec![d.clone()];
+    let mut seen: HashSet<Digest> = HashSet::new();
+    let mut steps = 0;
+    while let Some(cur) = frontier.pop() {
+        steps += 1;
+        if steps > 20_000 || !seen.insert(cur.clone()) {
+            continue;
+        }
+        let cur_round = match o.blocks.get(&cur) {
+            Some(r) => r.round,
+            None => continue,
+        };
+        if let Some(kids) = o.ext.children.get(&cur) {
+            for k in kids {
+                if o.blocks.get(k).map_or(false, |r| r.round == cur_round + 1) && o.ext.qc_shown[node].get(k).map_or(false, |s| *s <= upto) {
+                    found = true;
+                    if cur == *d {
+                        direct = true;
+                    }
+                }
+                frontier.push(k.clone());
+            }
+        }
+        if direct {
+            break;
+        }
+    }
+    (direct, found)
+}
+
+pub fn on_commit(o: &mut Observer, node: usize, b: &Block, d: &Digest, seq: u64) {
     if !o.is_honest_node(node) {
         return;
     }
@@ -833,44 +872,16 @@ pub fn on_commit(o: &mut Observer, node: usize, b: &Block, d: &Digest, _seq: u64
     // afterwards does not count: ancestors are delivered in the same commit call as, and right
     // before, the block whose 2-chain triggered it, so the certificate is always there first.
     o.ext.children.entry(b.qc.hash.clone()).or_default();
-    let (direct, justified) = {
-        let mut direct = false;
-        let mut found = false;
-        let mut frontier: Vec<Digest> = vec![d.clone()];
-        let mut seen: HashSet<Digest> = HashSet::new();
-        let mut steps = 0;
-        while let Some(cur) = frontier.pop() {
-            steps += 1;
-            if steps > 20_000 || !seen.insert(cur.clone()) {
-                continue;
-            }
-            let cur_round = match o.blocks.get(&cur) {
-                Some(r) => r.round,
-                None => continue,
-            };
-            if let Some(kids) = o.ext.children.get(&cur) {
-                for k in kids {
-                    if o.blocks.get(k).map_or(false, |r| r.round == cur_round + 1) && o.ext.qc_shown[node].contains(k) {
-                        found = true;
-                        if cur == *d {
-                            direct = true;
-                        }
-                    }
-                    frontier.push(k.clone());
-                }
-            }
-            if direct {
-                break;
-            }
-        }
-        (direct, found)
-    };
+    let (direct, justified) = commit_justified(o, node, d, seq);
     if direct {
         o.probe("C05.direct-commit");
     } else if justified {
         o.probe("C05.ancestor-commit");
     } else {
-        o.ext.unjustified[node].push((d.clone(), b.round));
+        // The certified child may be a block the observer has not seen yet (a leader's own
+        // block is certified from its vote before the proposal has reached any wire); judged
+        // again at the end of the run, still only with certificates shown before this commit.
+        o.ext.unjustified[node].push((d.clone(), b.round, seq));
     }
     // ---- C08: data availability at commit ----------------------------------------------------
     for x in &b.payload {
@@ -953,7 +964,11 @@ pub fn on_end(o: &mut Observer, end_us: u64) {
             continue;
         }
         let pending = std::mem::take(&mut o.ext.unjustified[i]);
-        for (d, r) in pending {
+        for (d, r, seq) in pending {
+            if commit_justified(o, i, &d, seq).1 {
+                o.probe("C05.justified-by-block-seen-later");
+                continue;
+            }
             o.violate("C05", "commit-without-2-chain", Some(i), format!("node {} committed block {} of round {} without having been shown a QC for a child of round {} (and it is no ancestor of a block committed that way)", i, ident::short(&d), r, r + 1));
         }
     }
